@@ -92,8 +92,8 @@ def _append_num(kind):
         elif kind in ('U32', 'I32', 'U64', 'I64'):
             t.add(str(v))
         elif kind == 'CharHex':
-            # sprintf("%02X", char): the char is promoted to int and printed as unsigned int
-            t.add('%02X' % (v & 0xffffffff))
+            # the byte value of the char in two hex digits (that the real function formats an *unsigned* byte is C10 R10.5's obligation)
+            t.add('%02X' % (v & 0xff))
         elif kind == 'U32Hex':
             t.add('%08X' % (v & 0xffffffff))
         elif kind == 'U64Hex':
